@@ -254,8 +254,58 @@ def step (st : St) (j : Json) : P (St × Json) := do
     pure ({ st with sess := { program := p.getD st.sess.program, user := u.getD st.sess.user } }, Json.mkObj [("ok", true)])
   | _ => throw ("bad step " ++ what)
 
+-- ---------- the runtime-object machine (C12 / C13 / C19)
+
+partial def rnodeToJson : RNode → Json
+  | .mk i n isR r t m ks => Json.mkObj [("id", (i : Nat)), ("name", .str n), ("isroot", isR),
+      ("root", match r with | some x => ((x : Nat) : Json) | none => Json.null),
+      ("tp", match t with | some x => Json.str x | none => Json.null),
+      ("md", Json.mkObj (m.map (fun (k, v) => (k, ((v : Nat) : Json))))),
+      ("k", Json.arr (ks.map rnodeToJson).toArray)]
+
+def heapToJson (h : Heap) : Json :=
+  Json.mkObj [("comps", Json.arr (h.comps.map rnodeToJson).toArray),
+    ("mds", Json.mkObj (h.mds.map (fun (i, o) => (toString i, Json.arr #[.str o.name, .str o.content]))))]
+
+def mdOptOfJson : Json → MdOpt
+  | .bool true => .yes
+  | .bool false => .no
+  | .str "copy" => .copy
+  | .str "overwrite" => .overwrite
+  | .str "copyover" => .copyover
+  | _ => .invalid
+
+def toutToJson : TOut → Json
+  | .ok => "ok"
+  | .refused => "refused"
+  | .error => "error"
+  | .node i => Json.mkObj [("node", (i : Nat))]
+
+def natField (j : Json) (k : String) : P Nat := do (← j.getObjVal? k).getNat?
+
+def fstep (h : Heap) (j : Json) : P (Heap × TOut) := do
+  let what ← strField j "do"
+  match what with
+  | "root" => pure (mkRoot h (← strField j "name"), .ok)
+  | "node" => pure (mkNode h (← strField j "name"), .ok)
+  | "md" => pure (addMd h (← natField j "node") (← strField j "name") (← strField j "content"), .ok)
+  | "add" => pure (addToTree h (← natField j "parent") (← natField j "child"))
+  | "force" => pure (forceAdd h (← natField j "parent") (← natField j "child"))
+  | "graft" => pure (graft h (← natField j "recv") (← natField j "scion") (mdOptOfJson ((optField j "opt").getD Json.null)))
+  | "cut" => pure (cut h (← natField j "node") (mdOptOfJson ((optField j "opt").getD Json.null)))
+  | "get" =>
+    let fromRoot ← (← j.getObjVal? "fromroot").getBool?
+    pure (h, getFromTree h (← natField j "node") fromRoot (← strListOfJson (← j.getObjVal? "names")))
+  | _ => throw ("bad forest step " ++ what)
+
 def handle (op : String) (j : Json) : P Json := do
   match op with
+  | "forest" =>
+    let steps ← arrField j "steps"
+    let (_, outs) ← steps.foldlM (fun (acc : Heap × List Json) s => do
+      let (h', o) ← fstep acc.1 s
+      pure (h', Json.mkObj [("r", toutToJson o), ("heap", heapToJson h')] :: acc.2)) (({} : Heap), [])
+    pure (Json.mkObj [("out", Json.arr outs.reverse.toArray)])
   | "history" =>
     let steps ← arrField j "steps"
     let (_, outs) ← steps.foldlM (fun (acc : St × List Json) s => do
